@@ -593,6 +593,28 @@ def r04_9(ctx, rep):
         raise MechanismMissing(R, "fewer than 5 keyword flags found")
 
 
+@SPEC.rule(
+    "R04.10",
+    "every section is visited: loops over a context's children / element lists in exitComposition run to completion "
+    "(no break / return inside them), so element lists that follow an equation or algorithm section are handled too",
+)
+def r04_10(ctx, rep):
+    R = "R04.10"
+    gp, rules, gctx, ms, generic = _facts(ctx, R)
+    fn = ms.get("exitComposition")
+    if fn is None:
+        raise MechanismMissing(R, "exitComposition not found")
+    n = 0
+    for lp in walk_local(fn):
+        if isinstance(lp, ast.For):
+            n += 1
+            early = [norm(x) for x in ast.walk(lp) if isinstance(x, (ast.Break, ast.Return))]
+            rep.ob(R, "%s:%s.exitComposition" % (PARSER, L), "loop `for %s in %s` complete" % (norm(lp.target), norm(lp.iter)[:50]), not early,
+                   "the loop leaves early (%s): sections after that point keep default visibility / are not appended" % early)
+    if n < 3:
+        raise MechanismMissing(R, "fewer than 3 loops found in exitComposition")
+
+
 # -- seeded variants ---------------------------------------------------------
 from ._mut import delete_stmt_where, replace_in_func  # noqa: E402
 
@@ -695,3 +717,15 @@ def _m_flag(mod):
         return False
 
     return mod if replace_in_func(mod, "ASTListener.enterClass_definition", edit) else None
+
+
+@SPEC.mutant("visibility loop stops at the first equation section", PARSER, "R04.10", "complete")
+def _m_break(mod):
+    def edit(fn):
+        for lp in ast.walk(fn):
+            if isinstance(lp, ast.For) and "getChildren" in norm(lp.iter):
+                lp.body.append(ast.parse("if isinstance(child, ModelicaParser.Equation_sectionContext):\n    break").body[0])
+                return True
+        return False
+
+    return mod if replace_in_func(mod, "ASTListener.exitComposition", edit) else None
